@@ -73,6 +73,11 @@ def correspondence(ctx):
     quick = ctx.tier == 'quick'
     binp = ctx.go_build('c07')
     corr = V.Corr()
+    # (d) time history (about 5 s of wall clock, mostly sleeping): started now, collected at the end
+    from concurrent.futures import ThreadPoolExecutor
+    tout = os.path.join(ctx.dir, 'time.jsonl')
+    tpool = ThreadPoolExecutor(max_workers=1)
+    tfut = tpool.submit(ctx.run, [binp, 'time', tout], 300)
     # (b)+(c) real certificates
     out = os.path.join(ctx.dir, 'cases.jsonl')
     rc, o = ctx.run([binp, 'gen', out, '300' if quick else '3000'])
@@ -81,6 +86,13 @@ def correspondence(ctx):
     V.evaluate_case_file(ctx, out, ['model.CertConstraint'], corr=corr, max_samples=2)
     # (a) attribute level
     _attr_level(ctx, binp, corr, 3 if quick else 4, 1000 if quick else 20000, 400 if quick else 2500)
+    rc, o = tfut.result()
+    tpool.shutdown()
+    if rc != 0:
+        raise V.BuildError('c07 time history failed: ' + o[-2000:])
+    V.evaluate_case_file(ctx, tout, ['model.CertConstraint'], corr=corr, max_samples=0)
+    if any(k == 'time/dropped-slow-machine' for k in corr.distribution):
+        ctx.notes.append('time history dropped: phase 1 never finished within 2 s on this machine')
     # coverage-guided differential fuzzing against the Go transcription of C07_attr_spec / C07_constraint_spec: the fuzzer
     # sees the library's coverage, so a count comparison, a cache or a redaction is a branch it tries to reach
     # (failing-input search only, never the proof)
@@ -111,6 +123,9 @@ def correspondence(ctx):
                  "URI-focused (sound chain, other attributes matching) with URI constraints exact / permuted / wildcard / near miss "
                  "(password replaced by xxxxx, other password, password added or dropped, userinfo dropped, slash, port, host case, scheme "
                  "case, hex case, decoded escape, query, fragment), ground truth = string equality with (*url.URL).String(); "
+                 "one time history per run: a first full InTotoVerify, then a certificate valid for 3 more seconds and one valid from "
+                 "3 s in the future, each through Step.CheckCertConstraints, VerifyCertificateTrust and a full InTotoVerify before and after "
+                 "a sleep across both instants (discarded and repeated when the machine is too slow); "
                  "each scenario gives one Step.CheckCertConstraints case and one CertificateConstraint.Check case per "
                  "constraint. attribute level: all pairs of lists of length <= %d over {\"\",a,b,*} plus random lists of length <= 6 over 12 "
                  "strings. non-trivial = everything except the empty/empty attribute pair; distinct = distinct abstract scenario "
@@ -146,6 +161,17 @@ def replay(ctx, case):
         print(case.get('impl', ''))
         return
     binp = ctx.go_build('c07')
+    if ((case.get('case', case) or {}).get('klass') or '').startswith('time/'):
+        c = case.get('case', case)
+        print('recorded observation: %s  impl=%s  demanded=%s' % (json.dumps(c.get('input')), c.get('impl'), c.get('oracle')))
+        print('the observation belongs to a time history (first InTotoVerify, short-lived and future-dated certificates, 4.5 s sleep); re-running the whole history:')
+        tout = os.path.join(ctx.dir, 'replay_time.jsonl')
+        rc, o = ctx.run([binp, 'time', tout], 300)
+        for l in open(tout):
+            k = json.loads(l)
+            print('  %-45s %-24s at T%+s  impl=%s  demanded=%s%s' % (k['klass'], k['input'].get('entry', ''), k['input'].get('at', ''), k['impl'], k.get('oracle'),
+                                                                  '' if k['impl'] == k.get('oracle') else '   <-- differs'))
+        return
     p = os.path.join(ctx.dir, 'replay_case.json')
     json.dump(case.get('case', case), open(p, 'w'))
     rc, o = ctx.run([binp, 'replay', p])
